@@ -1,1 +1,40 @@
-#[allow(unused_imports)] use super::*;
+#[allow(unused_imports)]
+use super::*;
+
+/// `Nonce::increment` on a caller-supplied value
+pub fn nonce_increment(n: [u8; NONCE_LEN]) -> [u8; NONCE_LEN] {
+    let mut x = Nonce(n);
+    x.increment();
+    x.0
+}
+
+pub struct SlotView {
+    pub send: [u8; NONCE_LEN],
+    pub min: [u8; NONCE_LEN],
+    pub next_min: [u8; NONCE_LEN],
+    pub seen: [u8; NONCE_LEN],
+}
+
+pub fn view(core: &CryptoCore) -> (usize, bool, Vec<SlotView>) {
+    let slots = core
+        .keys
+        .iter()
+        .map(|k| SlotView { send: k.send_nonce.0, min: k.min_nonce.0, next_min: k.next_min_nonce.0, seen: k.seen_nonce.0 })
+        .collect();
+    (core.current_key, core.nonce_half, slots)
+}
+
+pub fn set_send_nonce(core: &mut CryptoCore, slot: usize, n: [u8; NONCE_LEN]) {
+    core.keys[slot].send_nonce = Nonce(n);
+}
+
+/// owner of a `CryptoCore` for the driver (the type itself is private to the crypto module)
+pub struct CoreBox(pub CryptoCore);
+
+pub fn new_core(algo: &'static aead::Algorithm, key: &[u8], half: bool) -> CoreBox {
+    CoreBox(CryptoCore::new(LessSafeKey::new(UnboundKey::new(algo, key).unwrap()), half))
+}
+
+pub fn rotate(core: &mut CoreBox, algo: &'static aead::Algorithm, key: &[u8], id: u64, use_for_sending: bool) {
+    core.0.rotate_key(LessSafeKey::new(UnboundKey::new(algo, key).unwrap()), id, use_for_sending)
+}
